@@ -7,6 +7,7 @@ import NA.Proofs.C05Equiv
 import NA.Proofs.C05Device
 import NA.Proofs.C05Config
 import NA.Proofs.C05Stable
+import NA.Proofs.C05ResumeAll
 /-!
 # C05 — Linux approve converges for static routes and iptables
 
@@ -80,6 +81,35 @@ theorem routes_covered_linux (a b : List Route) (ha : (keys a).Nodup) :
   intro t ht d hda hdb
   obtain ⟨am, P, st⟩ := hst t ht
   exact st.covers d hda hdb
+
+/-- **Addresses stay routed (C14, address level).**  For ANY relation "destination `d` covers address
+`x`" (prefix match in particular): an address that some route of the device covers and some route of
+the target covers is covered by some route after every script line — new routes are added before old
+ones are deleted, and a replaced route leaves in the same packet in which its successor arrives. -/
+theorem linux_addresses_stay_routed {α : Type} (cov : Str × Int → α → Bool) (a b : List Route) (ha : (keys a).Nodup) :
+    ∃ tr, execTrace (keys a) ((diffRoutes a b).map cmdsOf) = some tr ∧
+      ∀ t ∈ tr, ∀ x, (∃ ka, ka ∈ keys a ∧ cov (dstOf ka) x = true) → (∃ kb, kb ∈ keys b ∧ cov (dstOf kb) x = true) →
+        ∃ k, k ∈ t ∧ cov (dstOf k) x = true := by
+  obtain ⟨hn, hs, hk⟩ := target_spec b
+  obtain ⟨tr, h, _, _, hst⟩ := core_ok a b _ ha hn hs hk
+  refine ⟨tr, h, ?_⟩
+  intro t ht x hxa hxb
+  obtain ⟨am, P, st⟩ := hst t ht
+  exact st.coversAddr cov x hxa hxb
+
+/-- … instantiated with the prefix match of the specification (`coversAddr`, `routedAddr`): what the
+step-safety oracle of C14 tests. -/
+theorem linux_addresses_stay_routed_prefix (a b : List Route) (ha : (keys a).Nodup) :
+    ∃ tr, execTrace (keys a) ((diffRoutes a b).map cmdsOf) = some tr ∧
+      ∀ t ∈ tr, ∀ x : Nat, routedAddr (keys a) x = true → routedAddr (keys b) x = true → routedAddr t x = true := by
+  obtain ⟨tr, h, hall⟩ := linux_addresses_stay_routed coversAddr a b ha
+  refine ⟨tr, h, ?_⟩
+  intro t ht x hxa hxb
+  simp only [routedAddr, List.any_eq_true] at hxa hxb ⊢
+  exact hall t ht x hxa hxb
+
+example : routedAddr [(s "10.1.0.0", 16, s "10.10.1.1")] 167839495 = true ∧
+    routedAddr [(s "10.1.0.0", 24, s "10.10.1.1")] 167839495 = false := by decide
 
 /-- With one next hop per destination on both sides the script also runs on the kernel that refuses
 a second route to a destination (`RTNETLINK answers: File exists`), and converges. -/
@@ -453,6 +483,59 @@ example : semEqRule {} exRule exRule = true ∧
 
 example : (execLine (keys exA) ((((diffRoutes exA exB).map cmdsOf).flatten).take 2)).isSome = true := by decide
 
+/-- **linux_resume — interrupted approve for the whole Linux device, any cut position (C10).**
+The approve is the list of its steps: every single `ip route` command, then — if the compare found a
+difference — copy of the restore file, its load (atomic) and the move to the start-up file, then the
+copy of the start-up routing file.  Cut it behind ANY number `k` of steps (also inside a joined
+route packet, before or behind the load, between the two start-up copies).  For every target the
+parser accepts (`tb`), every device state and both outcomes of the first compare:
+every executed step succeeded, the kernel route table is still a set, the rule sets are untouched or
+exactly loaded.  Any second approve from there (any reading of the routes, either outcome `c2` of its
+compare) runs to the end, ends in exactly the target's routes, and if it loads (`c2`), every table of
+the target holds exactly the target's chains, policies and rules; otherwise the rule sets stay as
+the cut left them (untouched — then the compare said "equal", see `iptables_same_only_if_equivalent`
+— or already loaded). -/
+theorem linux_resume (a b : List Route) (ha : (keys a).Nodup) (lines : List Str) (tb : Tables)
+    (hp : parseIPTables lines = .ok tb) (d0 : LDev) (h0 : d0.routes = keys a) (c1 : Bool) (k : Nat) :
+    ∃ d1, runSteps ((getIPTablesConfig tb).map toRLn) d0 ((planSteps ((diffRoutes a b).map cmdsOf) c1).take k) = some d1 ∧
+      d1.routes.Nodup ∧
+      (d1.ipt = d0.ipt ∨ ∀ t cm, getA t tb = some cm → d1.ipt.get t = some (expTable t cm)) ∧
+      ∀ (a' : List Route) (c2 : Bool), keys a' = d1.routes →
+        ∃ d2, runSteps ((getIPTablesConfig tb).map toRLn) d1 (planSteps ((diffRoutes a' b).map cmdsOf) c2) = some d2 ∧
+          d2.routes.Nodup ∧ (∀ x, x ∈ d2.routes ↔ x ∈ keys b) ∧
+          (c2 = true → (∀ t cm, getA t tb = some cm → d2.ipt.get t = some (expTable t cm)) ∧ d2.bootIpt = true) ∧
+          (c2 = false → d2.ipt = d1.ipt) := by
+  have hwf := (parseIPTables_wft lines tb hp).2
+  have hfile : ∀ st, ∃ st', restore st ((getIPTablesConfig tb).map toRLn) = some st' := by
+    intro st; obtain ⟨st', h, _⟩ := restore_target tb st hwf; exact ⟨st', h⟩
+  have hexact : ∀ u st', restore u ((getIPTablesConfig tb).map toRLn) = some st' →
+      ∀ t cm, getA t tb = some cm → st'.get t = some (expTable t cm) := by
+    intro u st' h
+    obtain ⟨st'', h', hx, _⟩ := restore_target tb u hwf
+    rw [h] at h'; injection h' with h'; subst h'; exact hx
+  obtain ⟨d1, h1, h2, h3, h4⟩ := resume_steps a b ha _ hfile d0 h0 c1 k
+  refine ⟨d1, h1, h2, ?_, ?_⟩
+  · rcases h3 with h3 | ⟨u, hu⟩
+    · left; exact h3
+    · right; exact hexact u _ hu
+  · intro a' c2 hk
+    obtain ⟨d2, g1, g2, g3, g4, g5⟩ := h4 a' c2 hk
+    exact ⟨d2, g1, g2, g3, fun hc => ⟨hexact _ _ (g4 hc).1, (g4 hc).2⟩, g5⟩
+
+/-- What the resumed approve does NOT repair (F-C10l, known): the start-up files.  Cut behind the load but
+before the move: the new rule set is running, so the second compare finds no difference (`c2 = false`),
+nothing is loaded or moved, and `/etc/network/packet-filter` still holds the OLD rules.  Cut behind the last
+route command: the second approve has no route command, so `/etc/network/routing` is never written. -/
+theorem linux_resume_startup_counterexample :
+    (∃ d1 d2, runSteps [] ⟨[], [], false, false⟩ ((planSteps [] true).take 2) = some d1 ∧
+      runSteps [] d1 (planSteps [] false) = some d2 ∧ d2.bootIpt = false) ∧
+    (∃ d1 d2, runSteps [] ⟨[], [], false, false⟩ ((planSteps [[.add (s "10.1.1.0", 24, s "10.9.9.9")]] false).take 1) = some d1 ∧
+      d1.routes = [(s "10.1.1.0", 24, s "10.9.9.9")] ∧
+      runSteps [] d1 (planSteps [] false) = some d2 ∧ d2.bootRt = false) :=
+  ⟨⟨_, _, rfl, rfl, rfl⟩, ⟨_, _, rfl, rfl, rfl, rfl⟩⟩
+
+example : (planSteps ((diffRoutes exA exB).map cmdsOf) true).length = 8 := by decide
+
 def exState : AState :=
   [{ name := s "filter", chains := [
       { name := s "c1", policy := s "-", rules := [exRule3] },
@@ -463,7 +546,7 @@ example : AStateOK { protoNames := false } exState :=
 
 def obligations : List Lean.Name := [
   ``linux_routes_converge, ``linux_routes_converge_unrepaired_counterexample,
-  ``linux_routes_one_hop_per_dst, ``routes_covered_linux, ``linux_routes_kernel_strict,
+  ``linux_routes_one_hop_per_dst, ``routes_covered_linux, ``linux_addresses_stay_routed, ``linux_addresses_stay_routed_prefix, ``linux_routes_kernel_strict,
   ``iptables_diff_iff_partial, ``iptables_diff_iff_counterexample,
   ``iptables_replace_converges_partial, ``iptables_replace_converges_parsed, ``iptables_replace_converges_counterexample,
   ``normalize_idempotent_partial, ``normalize_idempotent_counterexample,
@@ -471,7 +554,7 @@ def obligations : List Lean.Name := [
   ``kernel_roundtrip_partial, ``kernel_roundtrip_no_diff,
   ``kernel_roundtrip_counterexample, ``kernel_roundtrip_mask_counterexample,
   ``opt_roundtrip, ``parsePairs_words, ``getA_normalize,
-  ``linux_routes_resume, ``linux_routes_resume_cmds, ``route_show_roundtrip, ``iptables_table_idempotent, ``iptables_parse_text,
+  ``linux_routes_resume, ``linux_routes_resume_cmds, ``linux_resume, ``linux_resume_startup_counterexample, ``route_show_roundtrip, ``iptables_table_idempotent, ``iptables_parse_text,
   ``device_routes_roundtrip, ``device_iptables_parse, ``device_second_compare_empty, ``device_comment_line_skipped,
   ``normalize_stable_of_ruleOK, ``normalize_idempotent, ``parseInt_formatInt,
   ``parseConfig_whole_file, ``parseConfig_target_file, ``device_second_compare_empty_text,
